@@ -11,7 +11,10 @@ ASSUMPTIONS = []
 
 
 def run_binary(ctx):
-    judge = B.Judge(ctx, wf_only=True)
+    # >>> a_c06: C03's judge + the independent payload-position oracle and the Python structural checker on every accepted tape
+    from props import C06_ptr
+    judge = C06_ptr.Judge6(ctx, wf_only=True)
+    # <<< a_c06
     B.gen_streams(ctx, judge, ctx.scale((4, 3, 2500, 15000, 15000), (5, 4, 30000, 200000, 200000)))
     judge.flush()
 
@@ -23,7 +26,8 @@ def run(ctx):
 def search(ctx):
     import random
     ctx.rng = random.Random(ctx.seed + 1)
-    judge = B.Judge(ctx, wf_only=True)
+    from props import C06_ptr
+    judge = C06_ptr.Judge6(ctx, wf_only=True)
     B.gen_streams(ctx, judge, (4, 4, 20000, 100000, 100000))
     judge.flush()
 
